@@ -450,6 +450,15 @@ class CallGraph:
             for n in walk_body(fi.node):
                 if isinstance(n, ast.Call):
                     d = dotted(n.func)
+                    if d:
+                        # `from tempfile import mkstemp` / `import shutil as sh`: spell the callee by its origin
+                        head, _, rest = d.partition(".")
+                        origin = fi.module.imports.get(head)
+                        if origin and not origin.startswith("."):
+                            if ":" not in origin and origin.split(".")[0] == head:
+                                origin = head  # plain `import a.b` binds `a`
+                            origin = origin.replace(":", ".")
+                            d = origin + ("." + rest if rest else "")
                     ow = _open_mode_writes(n)
                     if ow:
                         fs.append(n)
